@@ -4,6 +4,9 @@
 (* one event; many scenarios are concatenated (scn resets).                                        *)
 (*   scn       a scenario starts                                                                   *)
 (*   lat       C06: all Route.Dispatch calls of the scenario: slowest (us), calls over the bound, stuck  *)
+(*             (also the only judged event of the spool-replay scenarios: spooling enabled, outage,  *)
+(*             endpoint back as black hole / stall-resume / close mid-replay / writer held by the    *)
+(*             hook gate; their replay / ugate records are informational -> info)                    *)
 (*   phase     C06: counters at quiescence of a steady phase the driver declared after observing   *)
 (*             the transition: steady = "healthy" | "down" | "paused" (endpoint stalled for many   *)
 (*             flush periods, never closed, then read everything) | "" (no identity demanded)      *)
